@@ -222,6 +222,7 @@ func runC13(c *Ctx) {
 			}
 		}
 		hasRangeAnswer, hasDrain := false, false
+		drainBad := ""
 		exitChecked, otherExit := false, ""
 		if sel == nil {
 			R.Fatal("connection.write has no select case on the stop channel (anchor)")
@@ -302,6 +303,67 @@ func runC13(c *Ctx) {
 				}
 				hasRangeAnswer = mapRange && replySend
 				hasDrain = drainRecv && replySend
+				// the drain goes on until the queue says it is empty: the loop around the receive is left only on the receive's
+				// own ok flag (range over the closed channel) or on a select's default arm - not on a count taken beforehand
+				// or recomputed while the queue shrinks
+				for _, b := range scan {
+					for _, ins := range b.Instrs {
+						u, isU := ins.(*ssa.UnOp)
+						if !isU || u.Op != token.ARROW {
+							continue
+						}
+						if _, f, ok := fieldLoad(u.X); !ok || f != "activeMsgChan" {
+							continue
+						}
+						var loop map[*ssa.BasicBlock]bool
+						for _, l := range loopsByHeader(b.Parent()) {
+							if l[b] && (loop == nil || len(l) < len(loop)) {
+								loop = l
+							}
+						}
+						if loop == nil {
+							drainBad = "the receive from the command queue at " + c.P.RelPos(u.Pos()) + " is not in a loop: at most one queued command is answered"
+							continue
+						}
+						for lb := range loop {
+							leaves := false
+							for _, su := range lb.Succs {
+								if !loop[su] {
+									leaves = true
+								}
+							}
+							if !leaves {
+								continue
+							}
+							okExit := false
+							if iff, isIf := lb.Instrs[len(lb.Instrs)-1].(*ssa.If); isIf {
+								cond := iff.Cond
+								if un, isNot := cond.(*ssa.UnOp); isNot && un.Op == token.NOT {
+									cond = un.X
+								}
+								if ex, isEx := cond.(*ssa.Extract); isEx && ex.Tuple == ssa.Value(u) && u.CommaOk && ex.Index == 1 {
+									okExit = true
+								}
+								if bo, isBO := cond.(*ssa.BinOp); isBO {
+									for _, side := range []ssa.Value{bo.X, bo.Y} {
+										if ex, isEx := side.(*ssa.Extract); isEx && ex.Index == 0 {
+											if _, isSel := ex.Tuple.(*ssa.Select); isSel {
+												okExit = true
+											}
+										}
+									}
+								}
+							}
+							if !okExit {
+								pos := c.P.RelPos(lb.Instrs[len(lb.Instrs)-1].Pos())
+								for k := len(lb.Instrs) - 1; k >= 0 && (pos == "?" || pos == ""); k-- {
+									pos = c.P.RelPos(lb.Instrs[k].Pos())
+								}
+								drainBad = "the loop that takes the queued commands out is left near " + pos + " on a condition other than 'the queue is closed and empty' (the receive's ok flag): a bound such as len(queue), re-evaluated while the queue shrinks, stops half way and the remaining callers wait forever"
+							}
+						}
+					}
+				}
 				// every way out of the writer's loop goes through the stop arm
 				seenB := map[*ssa.BasicBlock]bool{caseBlock: true}
 				var esc func(x *ssa.BasicBlock)
@@ -327,6 +389,9 @@ func runC13(c *Ctx) {
 		}
 		R.Add("E5.exit", "connection.write / outstanding requests are answered when the writer stops", c.P.RelPos(writeFn.Pos()), st, d)
 		st, d = report.Discharged, ""
+		if hasDrain && drainBad != "" {
+			st, d = report.Violated, drainBad
+		}
 		if !hasDrain {
 			st, d = report.Violated, "commands already queued in the per-connection command channel when the writer stops are never taken out and answered: their callers wait forever"
 		}
